@@ -10,6 +10,12 @@ Part 2 (netlist level, cfg names `netlist:*`): real small designs through the un
 interpreters with different PYTHONHASHSEED and heap layout (checks/c02_designs.py); every `ns.get_name` call made
 while the text is generated is observed, the emitted declarations are parsed.
 
+Reproducibility beyond "fresh process, same DUIDs": every namer scenario is built again on Signals created after
+k dummy Signals (k in DUID_OFFSETS) and must give every signal (by creation index) the same name; every netlist design
+is also built + converted a second time in the same process and in further fresh processes that create N dummy Signals
+first (N in NETLIST_DUMMIES): the text must be the one of the plain run (tie-breaks must follow the design, not the
+position of its objects in the global DUID sequence / the iteration order of sets hashed by DUID).
+
 Oracle (boring, independent): (1) distinct objects get distinct names, a name never changes on a repeated call;
 (2) a name matches [A-Za-z_][A-Za-z0-9_$]* and - when the reserved set is in use - is not one of the IEEE 1800-2017
 Annex B keywords TYPED BELOW (not imported from verilog.py); (3) every identifier declared in the text is declared
@@ -25,8 +31,10 @@ RULE = ("namer level: every ordered tuple (k<=3) / multiset in both creation ord
         "(back-trace shape x name_override [x related-to-an-earlier-signal vectors, chain <= 2]) from the menus in "
         "coverage.menus, plus one keyword family (each of the 248 IEEE 1800-2017 keywords as override / as leaf name / "
         "twice / next to '<kw>_1'); each scenario is evaluated for every permutation of first get_name calls and with "
-        "convert()'s reserved set on and off: evaluations = scenario x order x reserved runs (+ 2 conversions per "
-        "netlist design).  A scenario is counted in distinct_nontrivial iff in at least one run the namer had to "
+        "convert()'s reserved set on and off, and is rebuilt at every DUID offset of (1,2,3,5,8,13) dummy Signals under which "
+        "the signal set iterates in an order not yet seen for that scenario (all offsets in the keyword and k<=2 families): "
+        "evaluations = scenario x order x reserved runs + DUID-offset rebuilds (+ 10 conversions per netlist design: plain, other "
+        "hash seed/heap, second build in the same process, 7 DUID offsets).  A scenario is counted in distinct_nontrivial iff in at least one run the namer had to "
         "disambiguate (some final name differs from the signal's own override / leaf name); scenarios are distinct "
         "inputs by construction (configurations partition the space), a netlist design counts 1 if at least one "
         "observed name needed disambiguation.  Netlist level: per design, all get_name calls of convert() observed, all "
@@ -38,7 +46,8 @@ ASSUMPTIONS = [
     "namer runs for the different get_name orders start from one-level copies of a freshly built namespace; every 32nd scenario (and every reported violation) is re-run on fresh builds and must agree",
     "legal identifier = [A-Za-z_][A-Za-z0-9_$]* and not an IEEE 1800-2017 Annex B keyword (list typed in this file); Verilog-2005 tools reserve a subset of it",
     "netlist level: declarations are recognised by the fixed layout convert() emits (port lines, wire/reg lines, memory arrays, instance headers); a name handed out for a Signal/Memory/Instance that is found in no declaration is a machinery error, not a violation",
-    "reproducibility is judged on two fresh processes (PYTHONHASHSEED 1 / 4242, ASLR + different heap padding); the two '// Date' lines are masked",
+    "reproducibility is judged on two fresh processes (PYTHONHASHSEED 1 / 4242, ASLR + different heap padding), a second build in the same process and fresh processes that create 1, 2, 3, 5, 8, 13, 64 dummy Signals before the design; the two '// Date' lines are masked",
+    "namer level DUID offsets: consecutive real Signals (DUID stride recorded in cover), names compared with get_name called in creation order and the reserved set on; an offset is skipped only when both the DUID order and the iteration order of the signal set equal those of an offset already evaluated for the same scenario",
     "tracer shim (only for the netlist designs; names only)",
 ]
 
